@@ -49,3 +49,17 @@ def make_jobs(rng, names, kinds, n_per_class, objectives=("sphere", "linear", "r
                 job["weights"] = [rng.choice([0.0, 0.25, 0.5, 1.0, 2.0]) for _ in range(k)]
             jobs.append(job)
     return jobs
+
+
+def param_sweep_jobs(rng, names, kinds=("cont-sym",), max_cycles=2, dims=(3,), objectives=("sphere",), minmaxes=("min",), **extra):
+    """one job per (class, algorithm parameter, validator-accepted candidate value): the documented configuration with that one value moved"""
+    out = []
+    for name in names:
+        for k, v in optimizers.param_variants(name):
+            kind = rng.choice(list(kinds))
+            job = {"name": name, "kind": kind + "+param", "specs": trace.task_specs(rng, kind, rng.choice(list(dims))), "objective": rng.choice(list(objectives)),
+                   "minmax": rng.choice(list(minmaxes)), "seed": rng.randrange(1, 10 ** 6), "cfg": {"max_cycles": max_cycles, "fitness_error": None, k: v},
+                   "mode": "serial", "trace": False}
+            job.update(extra)
+            out.append(job)
+    return out
